@@ -124,7 +124,7 @@ func runScenario(s scenario) result {
 	var actorPanic atomic.Value
 	var replyStarted, replyReturned int64
 	pending := map[int]*fpgo.AskDef[int, int]{} // actor goroutine only
-	var deferred []*fpgo.AskDef[int, int]        // actor goroutine only
+	var deferred []*fpgo.AskDef[int, int]       // actor goroutine only
 	doReply := func(a *fpgo.AskDef[int, int]) {
 		atomic.AddInt64(&replyStarted, 1)
 		p, st := vlib.Try(func() { a.Reply(f(a.Message)) })
